@@ -9,7 +9,8 @@ class C06Queue(CQBase):
     pid = "C06"
     prefixes = ("C06.",)
     mc = [("ConsensusQueue_mc", "ConsensusQueue_sig", ("quick", "thorough"))]
-    gens = [Gen("ConsensusQueueGen", "ConsensusQueueGen_sig_cover", "bfs", tiers=("quick",), timeout=900, cap=2000),
+    gens = [Gen("ConsensusQueueGen", "ConsensusQueueGen_uvsig_cover", "bfs", tiers=("quick", "thorough"), timeout=900),
+            Gen("ConsensusQueueGen", "ConsensusQueueGen_sig_cover", "bfs", tiers=("quick",), timeout=900, cap=2000),
             Gen("ConsensusQueueGen", "ConsensusQueueGen_sig_sim", "simulate", num=100, depth=16, tiers=("quick",), cap=800),
             Gen("ConsensusQueueGen", "ConsensusQueueGen_sim", "simulate", num=100, depth=18, tiers=("quick",), cap=400),
             Gen("ConsensusQueueGen", "ConsensusQueueGen_sig_cover", "bfs", tiers=("thorough",), timeout=1800, cap=20000),
